@@ -1435,10 +1435,11 @@ func entStoreHistory(c *chain, r *rng, nops int, mon *storeMon, kinds map[string
 	return ops
 }
 
-// VERIF_STORE_EMPTY_SIGNER=1: also generate enterprise parameters whose signer list has an EMPTY element
-// ("addr," - strings.Split gives ""), rendered as go_zero_addr (the model's empty string).  See the report: the real
-// validation refuses it (sdk.AccAddressFromBech32("") errs), the model's ent_AccAddressFromBech32 accepts go_zero_addr.
-var emptySignerElems = os.Getenv("VERIF_STORE_EMPTY_SIGNER") == "1"
+// enterprise parameters whose signer list has an EMPTY element ("addr," - strings.Split gives ""), rendered as
+// go_zero_addr (the model's empty string) are generated too: the real validation refuses them
+// (sdk.AccAddressFromBech32("") errs).  This input exposed that the hand-written ent_AccAddressFromBech32 accepted the
+// empty string; the model was corrected (addr_parses, model/Enterprise.v).  VERIF_STORE_EMPTY_SIGNER=0 switches it off.
+var emptySignerElems = os.Getenv("VERIF_STORE_EMPTY_SIGNER") != "0"
 
 // guardedHistory: a panic of a keeper accessor on a generated (legal) operation sequence is an observation, not a
 // harness crash: it is reported as a failure of the property on the implementation.
